@@ -10,6 +10,12 @@ G  TLC Gen_PageStore: every add/redirect/commit history up to the bound, with th
         step, so the memo is always populated before the next write; lazy: probe at
         the end only) plus a probe through a *new* context on the same file.
    TLC -simulate: longer random behaviours of the same spec, replayed the same way.
+S  the namespace table of a site as the model's constant (PageStore.tla Ns*, MC_PageStore S_*):
+        MC_PageStore_site / Demo_PageStore_canon_unfolded on the built-in English excerpt, and
+        Gen_PageStore_S once per shipped language configuration (data/<lang>/namespaces.json as
+        the real context holds it): TLC derives which spellings name which namespace (local name,
+        canonical name, aliases, each in every letter case, blanks as underscores), enumerates the
+        histories and the lookup table; replayed into a Wtp(lang_code=<lang>).
 V  random long histories over a wider title universe recorded from the real code and
         validated by TLC against Trace_PageStore.
 """
@@ -21,6 +27,7 @@ import re
 import random
 import shutil
 import tempfile
+import time
 from pathlib import Path
 
 import common
@@ -56,10 +63,12 @@ def res_of_exp(r):
     return (conc(r["title"]), r["ns"], conc_red(r["redirect"]), BODY[r["body"]], r["model"])
 
 
-def new_ctx(path):
+def new_ctx(path, lang="en"):
     from wikitextprocessor import Wtp
 
-    return Wtp(db_path=str(path), quiet=True)
+    if lang == "en":
+        return Wtp(db_path=str(path), quiet=True)
+    return Wtp(db_path=str(path), lang_code=lang, quiet=True)
 
 
 def apply_op(ctx, op):
@@ -110,19 +119,24 @@ _G = {}
 
 
 def replay_chunk(chunk):
-    """chunk: list of (hist, mode). Uses globals _G['args'], _G['tables']."""
+    """chunk: list of (hist, mode) or (set key, hist, mode). Uses globals _G['args'], _G['tables'], _G['lang']
+    or, with a set key, _G['sets'][key] = (args, tables, lang)."""
     common.use_repo()
-    args = _G["args"]
-    tables = _G["tables"]
     res = []
     d = Path(tempfile.mkdtemp(prefix="c10-"))
     try:
-        for k, (hist, mode) in enumerate(chunk):
+        for k, item in enumerate(chunk):
+            if len(item) == 3:
+                key, hist, mode = item
+                args, tables, lang = _G["sets"][key]
+            else:
+                key, (hist, mode) = None, item
+                args, tables, lang = _G["args"], _G["tables"], _G.get("lang", "en")
             bad: list = []
             ncalls = 0
             path = d / f"db{k}" / "pages.db"
             path.parent.mkdir()
-            ctx = new_ctx(path)
+            ctx = new_ctx(path, lang)
             try:
                 if mode == "eager":
                     ncalls += probe(ctx, args, tables[common.json_key([])]["cur"], "after 0 ops", hist, bad)
@@ -134,7 +148,7 @@ def replay_chunk(chunk):
                 # a new context on the same file sees exactly the committed rows
                 tb = tables[common.json_key(hist)]
                 comtab = tb["cur"] if tb["com"]["same"] else tb["com"]
-                ctx2 = new_ctx(path)
+                ctx2 = new_ctx(path, lang)
                 try:
                     ncalls += probe(ctx2, args, comtab, "new context on the same file", hist, bad)
                 finally:
@@ -147,7 +161,7 @@ def replay_chunk(chunk):
                 except Exception:
                     pass
                 shutil.rmtree(path.parent, ignore_errors=True)
-            res.append({"hist": hist, "mode": mode, "calls": ncalls, "bad": bad[:3], "nbad": len(bad)})
+            res.append({"key": key, "hist": hist, "mode": mode, "calls": ncalls, "bad": bad[:3], "nbad": len(bad)})
     finally:
         shutil.rmtree(d, ignore_errors=True)
     return res
@@ -180,35 +194,248 @@ def run_replay(o: Outcome, name, args, tables, hists_modes):
 
 
 # ---------------------------------------------------------------------------
+# S: the namespace table of a site as the model's constant
+# ---------------------------------------------------------------------------
+# TLC prints JSON on stdout in the platform charset; names of other languages are not ASCII
+TLC_UTF8 = {"JAVA_TOOL_OPTIONS": "-Dfile.encoding=UTF-8 -Dstdout.encoding=UTF-8 -Dsun.stdout.encoding=UTF-8"}
+SITE_QUICK = ["en", "fr"]          # + one more chosen by the seed
+
+
+def languages():
+    common.use_repo()
+    import wikitextprocessor
+
+    d = Path(wikitextprocessor.__file__).parent / "data"
+    return sorted(p.name for p in d.iterdir() if (p / "namespaces.json").is_file())
+
+
+def fold_of(spelling: str) -> str:
+    """The letter-case / blank facts about a prefix spelling that TLC cannot compute."""
+    return spelling.replace("_", " ").lower()
+
+
+def spelling_variants(name: str, wide: bool):
+    vs = {name, name.lower(), name.upper()}
+    if wide:
+        vs |= {name.swapcase(), name.title(), name[:1].lower() + name[1:]}
+    # only genuine other-case writings of the same name (dotless i, sharp s ... are left out)
+    vs = {v for v in vs if v.lower() == name.lower() and v.casefold() == name.casefold()}
+    if " " in name:
+        vs |= {name.replace(" ", "_"), name.lower().replace(" ", "_")}
+    return vs
+
+
+def entry_names(e):
+    return [e["local"], e["canonical"]] + list(e["aliases"])
+
+
+def site_table(lang: str, wide: bool = False, select=None):
+    """The namespace table the real context of `lang` holds (init_namespace_data), the namespaces to
+    exercise (those whose local name differs from the canonical one first) and the spelling universe."""
+    common.use_repo()
+    with Scratch("c10s-") as d:
+        (d / "x").mkdir()
+        w = new_ctx(d / "x" / "p.db", lang)
+        nsd = w.NAMESPACE_DATA
+        w.db_conn.close()
+    entries = [{"id": v["id"], "canonical": key, "local": v["name"], "aliases": list(v["aliases"])} for key, v in nsd.items()]
+    by_id = {e["id"]: e for e in entries}
+    if select is None:
+        differs = lambda i: i in by_id and by_id[i]["canonical"] != by_id[i]["local"]
+        order = [4, 10, 828, 14, 5, 12, 2, 1] + sorted(i for i in by_id if i > 15)
+        select = [i for i in order if differs(i)][:2]
+        for i in [i for i in order if i in by_id and by_id[i]["aliases"]] + [10, 4, 828]:
+            if len(select) < 2 and i in by_id and i not in select:
+                select.append(i)
+    fold = {}
+    for e in entries:
+        if e["id"] != 0:
+            for n in entry_names(e):
+                fold[n + ":"] = fold_of(n) + ":"
+    for i in select:
+        for n in entry_names(by_id[i]):
+            for v in spelling_variants(n, wide):
+                fold[v + ":"] = fold_of(v) + ":"
+    return {"lang": lang, "nstab": entries, "fold": fold, "namespaces": select}
+
+
+def gen_site(site, maxlen: int):
+    """Gen_PageStore over the namespace table of one site -> (TLCResult, args, tables, SITE record)."""
+    cfg = (common.SPEC / "Gen_PageStore_S.cfg").read_text().replace("MaxLen = 2", f"MaxLen = {maxlen}")
+    with Scratch("c10s-") as d:
+        f = d / "site.json"
+        f.write_text(json.dumps(site))
+        r = tlc("Gen_PageStore", "gen_site.cfg", cfg_text=cfg, workers=1, timeout=3000, env={"NS_FILE": str(f), **TLC_UTF8})
+    info = r.tagged("SITE")
+    if not info:
+        raise common.TLCError(f"Gen_PageStore_S printed no SITE record ({site['lang']})")
+    info = info[0]
+    if not set(info["pfxns"]) <= set(site["fold"]) or sorted(info["namespaces"]) != sorted(site["namespaces"]):
+        raise common.TLCError(f"namespace table of {site['lang']} did not survive the transport to TLC")
+    args, tables = load_gen(r)
+    return r, args, tables, info
+
+
+def describe_prefix(site, info, title: str):
+    """Words for the report only: which name of which namespace the prefix of `title` spells -> (class, text)."""
+    for p in sorted(info["pfxns"], key=len, reverse=True):
+        if title.startswith(p):
+            e = next(x for x in site["nstab"] if x["id"] == info["pfxns"][p])
+            f = site["fold"].get(p, p)
+            kind = ("local name" if f == fold_of(e["local"]) + ":" else
+                    "canonical name" if f == fold_of(e["canonical"]) + ":" else "alias")
+            how = "" if p[:-1] in entry_names(e) else " in another letter case" + (" / with underscores" if "_" in p else "")
+            return kind + how, (
+                f"prefix {p!r} is the {kind}{how} of namespace {e['id']} (canonical {e['canonical']!r}, local {e['local']!r}, "
+                f"aliases {e['aliases']!r}) in the namespace table of lang_code={site['lang']!r}")
+    return "no prefix", f"no namespace prefix (lang_code={site['lang']!r})"
+
+
+def start_sites(plan, tier):
+    t0 = time.time()
+    h = _start_sites(plan, tier)
+    h["wall"] = time.time() - t0
+    return h
+
+
+def _start_sites(plan, tier):
+    """plan: list of (lang, maxlen, eager_stride, wide). Starts the TLC runs of the namespace-table engine
+    (they run beside the other engines' TLC runs) -> handle for finish_sites."""
+    import concurrent.futures as cf
+
+    sites = {lang: site_table(lang, wide) for lang, _, _, wide in plan}
+    ex = cf.ThreadPoolExecutor(max_workers=5 if tier == "thorough" else len(plan) + 2)
+    futs = {
+        "MC_site": ex.submit(tlc, "MC_PageStore", "MC_PageStore_site.cfg", workers=4, timeout=1800),
+        "Demo": ex.submit(tlc, "MC_PageStore", "Demo_PageStore_canon_unfolded.cfg", workers=1, check=False),
+    }
+    for lang, maxlen, _, _ in plan:
+        futs[lang] = ex.submit(gen_site, sites[lang], maxlen)
+    return {"plan": plan, "sites": sites, "futs": futs, "ex": ex}
+
+
+def finish_sites(o: Outcome, h):
+    t0 = time.time()
+    try:
+        _finish_sites(o, h)
+    finally:
+        o.extra["site_engine_wall_s"] = round(h["wall"] + time.time() - t0, 1)
+
+
+def _finish_sites(o: Outcome, h):
+    plan, sites = h["plan"], h["sites"]
+    try:
+        done = {k: f.result() for k, f in h["futs"].items()}
+    finally:
+        h["ex"].shutdown(wait=True)
+    o.add_tlc("MC_site", done["MC_site"])
+    o.extra["demo_unfolded_canonical_name_violates_invariant"] = bool(done["Demo"].invariant_violated)
+    if not done["Demo"].invariant_violated:
+        raise common.TLCError("Demo_PageStore_canon_unfolded no longer shows the unrecognised canonical name (vacuity guard)")
+    gens = {lang: done[lang] for lang, _, _, _ in plan}
+    tot = None
+    sets, work, skipped = {}, [], []
+    for lang, maxlen, stride, _ in plan:
+        r, args, tables, info = gens[lang]
+        if tot is None:
+            tot = r
+        else:
+            tot.distinct += r.distinct
+            tot.generated += r.generated
+            tot.wall += r.wall
+        if not info["wellformed"]:   # a spelling that names two namespaces: the statement has no single answer
+            skipped.append(lang)
+            o.note_drift({"site": lang, "what": "ambiguous namespace table, not replayed"})
+            continue
+        if not info["code_meets_statement"]:
+            o.note_drift({"site": lang, "what": "the table namespace_prefixes builds (as modelled) differs from the statement's on this data"})
+        sets[lang] = (args, tables, lang)
+        hists = [json.loads(k) for k in tables]
+        top = max(len(x) for x in hists)
+        work += [(lang, x, "lazy") for x in hists if x]
+        work += [(lang, x, "eager") for x in [x for x in hists if len(x) == top][::stride]]
+    o.add_tlc(f"Gen_site x{len(plan)}", tot)
+    _G["sets"] = sets
+    res = pmap(replay_chunk, work)
+    for r in res:
+        o.evaluations += r["calls"]
+        o.traces += 1
+        o.shape(("site", r["key"], common.json_key(r["hist"])))
+        if r["nbad"]:
+            b = r["bad"][0]
+            site, info = sites[r["key"]], gens[r["key"]][3]
+            call = b["call"][0] if b["call"] else "exception"
+            kind, spelled = describe_prefix(site, info, b["call"][1]) if b["call"] else ("", "")
+            if kind == "no prefix" and call in ("get_page_resolve_redirect", "get_page_body"):
+                # the spelling that matters may be the one the redirect is written with
+                for op in r["hist"]:
+                    if op["op"] == "add" and conc_red(op["redirect"]) is not None:
+                        k2, s2 = describe_prefix(site, info, conc_red(op["redirect"]))
+                        kind, spelled = "redirect written with " + k2, f"the redirect in this history is written {conc_red(op['redirect'])!r}: {s2}"
+            o.violation(
+                {"kind": "S", "lang": r["key"], "namespaces": site["namespaces"], "hist": r["hist"], "mode": r["mode"], "first_bad": b},
+                (f"{call}({', '.join(repr(x) for x in b['call'][1:])}) returned {b['got']!r}, the specification requires {b['expected']!r} "
+                 f"({b['where']}): a lookup must not depend on how the namespace prefix is written; {spelled}") if b["call"] else
+                f"exception {b['got']} while replaying a history with lang_code={r['key']!r}",
+                cls=f"S:{call}:{kind}:" + re.sub(r"[0-9]+", "N", b["where"]),
+            )
+    o.extra["site_tables"] = {
+        "languages": len(sets), "skipped_ambiguous": skipped,
+        "namespaces": {l: sites[l]["namespaces"] for l in list(sets)[:12]},
+        "lookups_per_probe": {l: len(sets[l][0]) for l in list(sets)[:12]},
+        "histories_replayed": len(work),
+    }
+    if sets:
+        l0 = list(sets)[min(1, len(sets) - 1)]
+        o.sample({"site": l0, "namespaces": sites[l0]["namespaces"],
+                  "prefix_spellings": {p: n for p, n in gens[l0][3]["pfxns"].items() if n in sites[l0]["namespaces"]}})
+
+
+def site_plan(tier):
+    langs = languages()
+    rng = random.Random(common.seed() * 7919 + 1010)
+    extra = rng.choice([l for l in langs if l not in SITE_QUICK])
+    main = [l for l in SITE_QUICK if l in langs] + [extra]
+    if tier != "thorough":
+        return [(l, 2, 4, False) for l in main]
+    return [(l, 2, 1, True) for l in main] + [(l, 1, 1, False) for l in langs if l not in main]
+
+
+# ---------------------------------------------------------------------------
 # V: recorded random histories validated by TLC
 # ---------------------------------------------------------------------------
 
-def wide_universe(rng):
-    """Atom tables + concrete spellings for a wider universe than the MC one."""
-    common.use_repo()
-    from wikitextprocessor import Wtp
+V_NS_EN = [10, 828, 100, 14, 110, 4, 5]   # 4/5: local name (Wiktionary) differs from the canonical one (Project)
 
-    with Scratch("c10u-") as d:
-        w = Wtp(db_path=str(d / "x" ) + ".db", quiet=True)
-        nsdata = w.NAMESPACE_DATA
-        w.db_conn.close()
+
+def wide_universe(rng, lang="en"):
+    """Atom tables + concrete spellings for a wider universe than the MC one. The namespace table of the
+    site and the letter-case facts go to TLC (which derives PfxNs / CanonPfx itself); `pfxns` / `canon`
+    here only steer the random generation and the tokenisation of recorded titles."""
+    chosen = V_NS_EN if lang == "en" else None
+    site = site_table(lang, wide=True, select=chosen)
+    if chosen is None:
+        ids = {e["id"] for e in site["nstab"]}
+        chosen = site["namespaces"] + [i for i in (10, 828, 14) if i in ids and i not in site["namespaces"]]
+        site = site_table(lang, wide=True, select=chosen)
+    # a prefix atom with an underscore inside is only defined as the prefix of its own namespace (MC_PageStore)
+    fold = {p: f for p, f in site["fold"].items() if "_" not in p}
     pfxns, canon = {}, {}
-    conc_of = {}
-    chosen = [10, 828, 100, 14, 110]
-    for key, v in nsdata.items():
-        if v["id"] not in chosen:
+    for e in site["nstab"]:
+        if e["id"] == 0:
             continue
-        names = [v["name"]] + v["aliases"] + ([key] if key != v["name"] else [])
-        canon[str(v["id"])] = v["name"] + ":"
-        for n in names:
-            for variant in {n, n.lower(), n.upper(), n.capitalize()}:
-                pfxns[variant + ":"] = v["id"]
+        canon[str(e["id"])] = e["local"] + ":"
+        folded = {fold_of(n) + ":" for n in entry_names(e)}
+        for p, f in fold.items():
+            if f in folded:
+                pfxns[p] = e["id"]
     upper = {}
     firsts = ["f", "F", "é", "É", "z", "Z", "9", "ñ", "Ñ"]
     for c in firsts:
         upper[c] = c.upper()
     words = ["oo", "ar baz", "'s", "/doc", "-x", ":w", "R:Webster"]
-    return {"pfxns": pfxns, "canon": canon, "upper": upper, "firsts": firsts, "words": words, "ns": chosen}
+    return {"pfxns": pfxns, "canon": canon, "upper": upper, "firsts": firsts, "words": words, "ns": chosen,
+            "nstab": site["nstab"], "fold": fold, "lang": lang}
 
 
 def rand_title(rng, u, ns, write: bool):
@@ -242,13 +469,13 @@ def record_traces(rng, u, ntraces, length):
         for tid in range(ntraces):
             path = d / f"t{tid}" / "p.db"
             path.parent.mkdir()
-            ctx = new_ctx(path)
+            ctx = new_ctx(path, u["lang"])
             events.append({"op": "reset", "tid": tid})
             written: list = []
             try:
                 for _ in range(length):
                     r = rng.random()
-                    ns = rng.choice([0, 10, 10, 828, 100, 14, 110])
+                    ns = rng.choice([0, u["ns"][0]] + u["ns"])
                     if r < 0.3 or not written:
                         t = rand_title(rng, u, ns, True)
                         if written and rng.random() < 0.4:
@@ -272,7 +499,7 @@ def record_traces(rng, u, ntraces, length):
                         if written and rng.random() < 0.8:
                             wt, wns = rng.choice(written)
                             base = [a for a in wt if a not in u["pfxns"]]
-                            ns = wns if rng.random() < 0.85 else rng.choice([None, 0, 10])
+                            ns = wns if rng.random() < 0.85 else rng.choice([None, 0, u["ns"][0]])
                             t = list(base)
                             if rng.random() < 0.4:
                                 t[0] = t[0].lower() if rng.random() < 0.7 else t[0].upper()
@@ -285,12 +512,12 @@ def record_traces(rng, u, ntraces, length):
                             elif ns is None and wns != 0 and rng.random() < 0.7:
                                 t = [u["canon"][str(wns)]] + t
                         else:
-                            ns = rng.choice([None, 0, 10, 828, 100])
+                            ns = rng.choice([None, 0] + u["ns"][:3] + u["ns"][-2:])
                             t = rand_title(rng, u, ns, False)
                         kind = rng.choice(["get", "get", "resolve", "exists", "body", "reopen_get", "count", "all"])
                         if kind in ("count", "all"):
                             has_ns = rng.random() < 0.7
-                            nsl = sorted(set(rng.choice([0, 10, 828, 100, 14, 110]) for _ in range(rng.randint(1, 3)))) if has_ns else []
+                            nsl = sorted(set(rng.choice([0] + u["ns"]) for _ in range(rng.randint(1, 3)))) if has_ns else []
                             redirects = rng.random() < 0.6
                             has_model = rng.random() < 0.4
                             model = rng.choice(["wikitext", "Scribunto", "json"]) if has_model else ""
@@ -317,7 +544,7 @@ def record_traces(rng, u, ntraces, length):
                             b = ctx.get_page_body(ts, ns)
                             ev["res"] = {"found": b is not None, "body": b or ""}
                         else:
-                            c2 = new_ctx(path)
+                            c2 = new_ctx(path, u["lang"])
                             try:
                                 ev["res"] = abs_page(c2.get_page(ts, ns, nr), u)
                             finally:
@@ -384,9 +611,10 @@ def normalise_events(events, u):
 def validate_trace(o: Outcome, events, u, name="Trace_PageStore"):
     with Scratch("c10t-") as d:
         tf = d / "trace.json"
-        tf.write_text(json.dumps({"pfxns": u["pfxns"], "canon": u["canon"], "upper": u["upper"], "events": events}))
+        # the namespace table of the site, not ready-made atom tables: TLC derives PfxNs / CanonPfx (PageStore.tla Ns*)
+        tf.write_text(json.dumps({"nstab": u["nstab"], "fold": u["fold"], "upper": u["upper"], "events": events}))
         cfg = "SPECIFICATION TSpec\nINVARIANT Verdict\nINVARIANT Coherent\nPOSTCONDITION Accepted\nCHECK_DEADLOCK FALSE\n"
-        r = tlc("Trace_PageStore", "trace.cfg", cfg_text=cfg, workers=1, env={"TRACE_FILE": str(tf)}, timeout=1800)
+        r = tlc("Trace_PageStore", "trace.cfg", cfg_text=cfg, workers=1, env={"TRACE_FILE": str(tf), **TLC_UTF8}, timeout=1800)
     o.add_tlc(name, r)
     v = r.tagged("VERDICT")
     if not v:
@@ -394,17 +622,19 @@ def validate_trace(o: Outcome, events, u, name="Trace_PageStore"):
     v = v[0]
     if v["consumed"] != len(events):
         raise common.TLCError(f"trace consumed {v['consumed']} of {len(events)} events")
+    if not v["tableok"]:
+        raise common.TLCError(f"ambiguous namespace table in the recorded universe ({u['lang']})")
     return v["bad"]
 
 
-def run_v(o: Outcome, ntraces, length):
-    rng = random.Random(common.seed() * 7919 + 10)
-    u = wide_universe(rng)
+def run_v(o: Outcome, ntraces, length, lang="en"):
+    rng = random.Random(common.seed() * 7919 + 10 + (0 if lang == "en" else sum(map(ord, lang))))
+    u = wide_universe(rng, lang)
     events = normalise_events(record_traces(rng, u, ntraces, length), u)
-    bad = validate_trace(o, events, u)
+    bad = validate_trace(o, events, u, name="Trace_PageStore" + ("" if lang == "en" else f"[{lang}]"))
     o.traces += ntraces
     o.evaluations += len(events)
-    o.extra["trace_events"] = len(events)
+    o.extra["trace_events"] = o.extra.get("trace_events", 0) + len(events)
     for e in events:
         if e["op"] not in ("reset", "commit"):
             o.shape(("ev", e["op"], common.json_key(e.get("title")), e.get("ns")))
@@ -417,7 +647,7 @@ def run_v(o: Outcome, ntraces, length):
         # cut out the offending trace up to the failing event for the replay
         start = max(i for i in range(b["i"]) if events[i]["op"] == "reset")
         o.violation(
-            {"kind": "V", "universe": {k: u[k] for k in ("pfxns", "canon", "upper")}, "events": events[start : b["i"]]},
+            {"kind": "V", "lang": lang, "universe": {k: u[k] for k in ("pfxns", "canon", "upper")}, "events": events[start : b["i"]]},
             (f"{ev['op']}({conc(ev['title'])!r}, ns={ev['ns']}) returned {ev['res']!r}; specification: {b['expected']!r}" if "title" in ev else
              f"{ev['op']}(namespaces={ev.get('nsl')}, redirects={ev.get('redirects')}, model={ev.get('model')!r}) returned {str(ev['res'])[:300]}; specification: {b['expected']!r}"),
             cls="V:" + ev["op"],
@@ -433,6 +663,8 @@ def run(tier: str) -> int:
     o.rule = (
         "G: every add/redirect/commit history up to MaxLen over the bounded title universe is one case "
         "(distinct by history), replayed eager+lazy and through a new context, comparing the full lookup table; "
+        "S: the same per shipped language configuration, the namespace table being the constant (2 namespaces whose local name differs "
+        "from the canonical one, every spelling of their names), distinct by (language, history); "
         "V: random histories, distinct by (op,title,ns) of each event. A case is non-trivial when it contains a write."
     )
     o.assumptions = [
@@ -440,6 +672,7 @@ def run(tier: str) -> int:
         "TLC 1.8 + CommunityModules Json/IOUtils; SQLite as shipped with /venv python",
     ]
     thorough = tier == "thorough"
+    sites = start_sites(site_plan(tier), tier)   # TLC runs of the namespace-table engine, beside the others
     # ---- M
     r = tlc("MC_PageStore", "MC_PageStore_norm_T.cfg" if thorough else "MC_PageStore_norm.cfg", workers=16, timeout=1800)
     o.add_tlc("MC_norm", r)
@@ -486,8 +719,13 @@ def run(tier: str) -> int:
     run_replay(o, "simulate", sargs, stables, work)
     if maximal:
         o.sample({"simulated_history": maximal[0]})
+    # ---- S: namespace tables of the shipped language configurations
+    finish_sites(o, sites)
     # ---- V
     run_v(o, 300 if thorough else 40, 40)
+    if thorough:   # the same over the namespace tables of other language configurations
+        for lang in [l for _, (l, _, _, _) in zip(range(3), site_plan(tier)) if l != "en"]:
+            run_v(o, 40, 40, lang)
     # the repository's own test-suite as a trace source (harness/suitetrace.py)
     import suitetrace
     common.with_engine(o, "suite", lambda: suitetrace.extend(o, tier, PID))
@@ -508,7 +746,7 @@ def replay(path: str) -> int:
         u = case["universe"]
         common.use_repo()
         with Scratch("c10r-") as d:
-            ctx = new_ctx(d / "p.db")
+            ctx = new_ctx(d / "p.db", case.get("lang", "en"))
             for e in case["events"][:-1]:
                 if e["op"] == "add":
                     ctx.add_page(conc(e["title"]), e["ns"], body=e["body"] or None, redirect_to=conc_red(e["redirect"]), model=e["model"])
@@ -534,7 +772,7 @@ def replay(path: str) -> int:
     print(json.dumps(v, indent=1)[:3000])
     common.use_repo()
     with Scratch("c10r-") as d:
-        ctx = new_ctx(d / "p.db")
+        ctx = new_ctx(d / "p.db", case.get("lang", "en"))
         b = case["first_bad"]
         for op in case["hist"]:
             apply_op(ctx, op)
